@@ -157,7 +157,7 @@ Lemma reported_error_gen fuel (prog : interp) (m : source_map) nl msgs0 r msgs s
        /\ (straight_line ts = true ->
            forall fi s, st_toks s = st_toks prog -> st_keys s = st_keys prog ->
              immediate s = [] -> loc s = mkloc (Some ln) 0 -> caps_inv s -> functions s = [] ->
-             ~ exists s', LineRun fi s s').
+             (~ exists s', LineRun fi s s') /\ ~ HostLine fi s).
 Proof.
   intros Hwf Hfuel Hclean Ew msg Hin.
   destruct (wf_store _ Hwf) as (_ & Hkeys & _).
@@ -172,7 +172,8 @@ Proof.
   { split; [repeat split; congruence|]. split; [exact S5|]. split; assumption. }
   assert (Hcl : straight_line (cur_line s) = true).
   { unfold cur_line. rewrite S4. cbn [loc_line]. rewrite S1, Eg. exact Hst. }
-  exact (straight_line_error_fails fi fuel stmts m s sa1 acc1 msg st1' HR Hcl Ewl).
+  split; [exact (straight_line_error_fails fi fuel stmts m s sa1 acc1 msg st1' HR Hcl Ewl)
+         | exact (host_line_error_fails fi fuel stmts m s sa1 acc1 msg st1' HR Hcl Ewl)].
 Qed.
 
 (* THE CONVERSE CLAUSE over the analysis of a program text without DEF *)
@@ -185,7 +186,7 @@ Theorem reported_error_means_failure fuel text :
        /\ (straight_line ts = true ->
            forall fi s, st_toks s = st_toks (p_prog (pass1_of' text)) -> st_keys s = st_keys (p_prog (pass1_of' text)) ->
              immediate s = [] -> loc s = mkloc (Some ln) 0 -> caps_inv s -> functions s = [] ->
-             ~ exists s', LineRun fi s s').
+             (~ exists s', LineRun fi s s') /\ ~ HostLine fi s).
 Proof.
   intros Hfuel Hclean msg Hin Herr.
   destruct (an_walk_errors fuel text) as (nl & r & msgs & stf & Ew & Hrev).
